@@ -97,6 +97,16 @@ CHECKS = {
         note='Relies on sys.addaudithook completeness (CPython 3.12 only); loads of the minifier\'s own modules are exempt; attribution by canary names.',
         technique='TLA+ (TLC) exhaustive check of the quoting rules against a literal lexer + trace validation of audit-event traces',
         design_ref='3.5, 5 (C12)'),
+    'C07': dict(
+        specs='Fold.tla, Trace_Fold.tla',
+        text='Decision structure of the folder (M) against the numeric tower and the property\'s rule (S: result type or exception per operator x '
+             'operand-class cell; raising/NaN/not-shorter kept; bool as name constant; negative as unary minus) checked by TLC over 13 x 17 x 17 cells x '
+             'environment facts; every cell is instantiated with concrete boundary literals in up to 15 syntactic contexts plus seeded nested '
+             'expressions and folded by the real code on 3 (quick) / 9 (thorough) interpreters; the interpreter evaluates input and output and TLC '
+             'judges identity of type, value, sign bit and exception, the size rule, and that S\'s type table matches the interpreter.',
+        note='Values are sampled per class (TLC does no arithmetic); identity is the interpreter\'s verdict; resource-heavy shifts/powers excluded.',
+        technique='TLA+ (TLC) check of folding decisions per operator/operand-class cell + replay of every cell into the real folder',
+        design_ref='3.6, 5 (C07)'),
     'C08': dict(
         specs='Pipeline.tla, PipelineS.tla, Trace_Pipeline.tla',
         text='TLC exhaustively checks the implementation-shaped pipeline model against the envelope (all 2^14 gating option sets x taint x '
